@@ -83,7 +83,7 @@ def grid(tier):
             yield {"input": "gen", "seed": 3000 + 10 * fi + j, "cfg1": cfgs[0], "cfg2": cfgs[1], "fmt": fi, "gen_version": 2 if j % 2 else 1.2, "src_case": "upper"}
             yield {"input": "tests/examples/sample.las", "cfg1": cfgs[0], "cfg2": cfgs[1], "fmt": fi}
     for k2 in range(3):      # witness of the known finding: a date-like text curve, wrapped vs unwrapped
-        yield {"input": "gen", "seed": 7000 + k2, "cfg1": {"version": 2, "wrap": True}, "cfg2": {"version": 2, "wrap": False}, "fmt": 0, "gen_version": 2, "src_case": "upper", "date_curve": True}
+        yield {"input": "gen", "seed": 7000 + k2, "cfg1": {"version": 2, "wrap": True}, "cfg2": {"version": 2, "wrap": False}, "fmt": 0, "gen_version": 2, "src_case": "upper", "date_curve": True, "wide": 7}
     # wide tables: data rows of every length relative to the 79 / 255 / 256-character marks, with and without wrapping
     k = 0
     for extra in (5, 6, 13, 20, 22, 23, 24, 27, 29, 34, 41, 55):
@@ -143,13 +143,13 @@ def run_case(case, ctx):
         spec = lasobj.rand_spec(random.Random(case["seed"]), text_curve=0.0)
         try:
             b = io.StringIO()
-            if case.get("date_curve"):
-                nrows = len(spec["curves"][0][4])
-                spec["curves"].append(["DATE", "", "", "text curve of dates", ["2018-05-%02d" % (i + 1) for i in range(nrows)]])
             if case.get("wide"):
                 nrows = len(spec["curves"][0][4])
                 spec["curves"] = spec["curves"][:1] + [["W%d" % j, "u", "", "wide %d" % j, [round(100.0 * j + i + 0.25, 2) for i in range(nrows)]] for j in range(case["wide"])]
                 ctx.count("inputs_with_wide_tables")
+            if case.get("date_curve"):
+                nrows = len(spec["curves"][0][4])
+                spec["curves"].append(["DATE", "", "", "text curve of dates", ["2018-05-%02d" % (i + 1) for i in range(nrows)]])
             obj = lasobj.build(lasio, spec)
             if case["seed"] % 2:
                 for it in obj.well:           # a ~Well section whose descriptions are short or empty
